@@ -9,7 +9,7 @@ C08 driver handlers.
   model: `Model.FloatDefault.floatOfLiteral` (bit-exact), spec on the implementation's observation:
   (a) finite and signed like the literal, (b) correctly rounded on the exactness domain
   (≤ 15 significant digits, net exponent within ±22), (c) within 5 ulp of the correctly rounded value,
-  (d) below the subnormal range (`< 2^-1076`, i.e. less than a quarter of the least subnormal) gives ±0,
+  (d) below half the least subnormal (`< 2^-1075`: the whole interval that rounds to zero, `c08_underflow_zero_sharp`) gives ±0,
   (e) rejected only if within 5 ulp(max) of the rounding threshold `2^1024 − 2^970`, never accepted
   from `2^1024` upwards.
 
@@ -66,7 +66,7 @@ def specF64 (l : NumLit) (impl : String) : Option String :=
     else if !withinUlps 5 l.neg num den r then
       let (d, u) := ulpDist num den r
       some s!"more-than-5-ulp: error is about {d / u} ulp"
-    else if num * 2 ^ 1076 < den && !F64.isZero r then some "underflow-not-zero: exact value < 2^-1076"
+    else if num * 2 ^ 1075 < den && !F64.isZero r then some "underflow-not-zero: exact value < 2^-1075"
     else none
 
 def f64lit : Handler := fun args impl =>
